@@ -4,9 +4,13 @@ Proof: GardenVerif.Props.C34 over the loader model (Model/Imports.lean): `load_t
 acyclicity hypothesis), `import_exactly_public_partial` (functions), witnesses for the classes in
 which the implementation does not follow the statement (types, methods, enum variants, cyclic
 unqualified imports).
-Tie: generated project directories; every probe expression is put, alone, into the main file and
-`garden check --json main.gdn` / `garden run main.gdn` are compared with the driver op
-`imports_eval` on the same project (outcome kind + the tag of the definition reached).
+Tie: generated project directories; the probe expressions are put into the main file, one
+`test p<i> { … }` each, and ONE `garden check --json main.gdn` (diagnostics attributed by line) and
+ONE `garden test main.gdn` (every test is evaluated on its own, a failing one does not hide the
+others) per project are compared with the driver op `imports_eval` on the same project (outcome
+kind + the tag of the definition reached); two probes per project are re-run alone through
+`garden check` / `garden run` and must agree with the batched answer; projects importing an
+unreadable file, or on which a batched process crashes, are run one probe per process.
 Direct oracle (no model): reachable <=> public, tag soundness (what is reached is local or public),
 check time and run time agree, cyclic projects finish, nothing crashes.
 """
@@ -39,6 +43,12 @@ K_SELF = "C34/self-import-panics"
 
 
 # ------------------------------------------------------------------ generation
+def via_name(path, k):
+    """`via` functions have project-unique names, so that `ns::via…()` always runs the body that the
+    oracle reads (an unqualified import placed after a definition replaces a same-named function)."""
+    return "via%s%d" % (os.path.basename(path)[0], k)
+
+
 class Gen:
     def __init__(self, rng):
         self.rng = rng
@@ -150,7 +160,7 @@ class Gen:
                         body = ("qual", rng.choice(aliases), rng.choice(FN[:3]), True)
                     else:
                         body = ("bare", rng.choice(FN[:3]), True)
-                    items.insert(rng.randint(0, len(items)), ("fn", True, "via%d" % k, self.next_tag(), body))
+                    items.insert(rng.randint(0, len(items)), ("fn", True, via_name(name, k), self.next_tag(), body))
             files[name] = items
         return {"main": "main.gdn", "files": files, "shape": shape}
 
@@ -243,8 +253,11 @@ def probes_for(rng, proj, limit):
         ps.append(("qual", a, "println", False))
         for v in VARIANTS[:2]:
             ps.append(("qual", a, v, False))
-        ps.append(("qual", a, "via0", True))
-        ps.append(("qual", a, "via1", True))
+        targets = [i[1] for i in main if i[0] == "imp" and i[2] == a]
+        vias = sorted({i[2] for t in targets for i in proj["files"].get(t, []) if i[0] == "fn" and i[4] is not None})
+        for v in vias[:2]:
+            ps.append(("qual", a, v, True))
+        ps.append(("qual", a, "viaz0", True))          # defined nowhere
     for f in FN:
         ps.append(("bare", f, True))
     for v in VARIANTS:
@@ -344,8 +357,85 @@ def garden(ctx, args, cwd):
     return res
 
 
+def classify_test(rc, so, se, n):
+    """`garden test main.gdn` with one `test p<i>` per probe: each test is evaluated on its own, a
+    failing one is reported as `Failed: p<i> …` + message and does not stop the others."""
+    if rc == -9999:
+        return None, "timeout"
+    if common.crashed(rc):
+        m = re.search(r"panicked at ([^\n]*)", se)
+        return None, "crash:" + (m.group(1).strip() if m else str(rc))
+    out = [None] * n
+    lines = so.split("\n")
+    for j, line in enumerate(lines):
+        m = re.match(r"P(\d+) (.*)$", line)
+        if m and int(m.group(1)) < n:
+            v = m.group(2).strip()
+            out[int(m.group(1))] = "ok:" + v if re.fullmatch(r"\d+", v) and int(v) >= 1000 else "ok:-"
+            continue
+        m = re.match(r"Failed: p(\d+) ", line)
+        if m and int(m.group(1)) < n:
+            msg = "Exception: " + (lines[j + 1].strip() if j + 1 < len(lines) else "")
+            for kind, pat in RUN_PATTERNS:
+                if pat.search(msg):
+                    out[int(m.group(1))] = "err:" + kind
+                    break
+            else:
+                out[int(m.group(1))] = "err:other:" + msg[:80]
+    return out, None
+
+
+def classify_check_lines(rc, so, se, first_line, n):
+    """One `garden check --json` over all probes; diagnostics are attributed by line number."""
+    if rc == -9999:
+        return None, "timeout"
+    if common.crashed(rc):
+        m = re.search(r"panicked at ([^\n]*)", se)
+        return None, "crash:" + (m.group(1).strip() if m else str(rc))
+    kinds = [[] for _ in range(n)]
+    stray = []
+    for line in so.split("\n"):
+        line = line.strip()
+        if not line.startswith("{"):
+            continue
+        try:
+            d = json.loads(line)
+        except ValueError:
+            return None, "garbled:" + line[:80]
+        if d.get("severity") != "error":
+            continue
+        msg = d.get("message", "")
+        k = d.get("line_number", -1) - first_line
+        for kind, pat in CHECK_PATTERNS:
+            if pat.search(msg):
+                break
+        else:
+            kind = "other:" + msg[:80]
+        if 0 <= k < n and kind != "missingFile":
+            kinds[k].append(kind)
+        else:
+            stray.append(kind)
+    if stray:
+        return None, "stray:" + ",".join(stray)
+    return ["diags=0 %s" % (",".join(sorted(ks)) or "none") for ks in kinds], None
+
+
+def single_probe(ctx, d, main, src, p):
+    with open(os.path.join(d, main), "w") as f:
+        f.write(src + "println(string_repr(%s))\n" % probe_expr(p))
+    c = classify_check(*garden(ctx, ["check", "--json", main], d))
+    r = classify_run(*garden(ctx, ["run", main], d))
+    return c, r
+
+
 def run_project(ctx, base, idx, proj, probes):
-    """Materialise the project, run every probe (check + run). Returns list of (check, run)."""
+    """Materialise the project and evaluate every probe at check time and at run time.
+    Batched: one `garden check --json` and one `garden test` over a main file holding one
+    `test p<i> { … }` per probe (a failing test does not hide the others, diagnostics carry their
+    line), plus two probes re-run alone through `garden check` / `garden run` and compared with the
+    batched answer. Projects that import an unreadable file (loading itself reports an error) or on
+    which a batched process crashes or times out are evaluated one probe per process.
+    Returns (list of (check, run), sources, inconsistencies)."""
     d = os.path.join(base, "p%05d" % idx)
     shutil.rmtree(d, ignore_errors=True)
     os.makedirs(d)
@@ -357,16 +447,29 @@ def run_project(ctx, base, idx, proj, probes):
         srcs[path] = render_file(path, items, idx)
         with open(full, "w") as f:
             f.write(srcs[path])
-    res = []
-    for p in probes:
-        text = srcs[main] + "println(string_repr(%s))\n" % probe_expr(p)
+    n = len(probes)
+    incons = []
+    res = None
+    _, _, n_missing = panic_classes(proj)
+    if not n_missing:
+        body = "".join('test p%d { println("P%d " ^ string_repr(%s)) }\n' % (i, i, probe_expr(p))
+                       for i, p in enumerate(probes))
         with open(os.path.join(d, main), "w") as f:
-            f.write(text)
-        c = classify_check(*garden(ctx, ["check", "--json", main], d))
-        r = classify_run(*garden(ctx, ["run", main], d))
-        res.append((c, r))
+            f.write(srcs[main] + body)
+        first = srcs[main].count("\n") + 1
+        cs, cerr = classify_check_lines(*garden(ctx, ["check", "--json", main], d), first, n)
+        ts, terr = classify_test(*garden(ctx, ["test", main], d), n)
+        if cerr is None and terr is None and all(t is not None for t in ts):
+            res = list(zip(cs, ts))
+            for i in sorted({(idx * 7 + 1) % n, (idx * 13 + 5) % n}):
+                one = single_probe(ctx, d, main, srcs[main], probes[i])
+                if one != res[i]:
+                    incons.append({"probe": probe_expr(probes[i]), "batched": list(res[i]), "single": list(one)})
+                    res[i] = one
+    if res is None:
+        res = [single_probe(ctx, d, main, srcs[main], p) for p in probes]
     shutil.rmtree(d, ignore_errors=True)
-    return res, srcs
+    return res, srcs, incons
 
 
 n_fixed = [0]
@@ -598,26 +701,17 @@ def run(ctx):
 def _run(ctx, rng, base):
     t_fixed = time.time()
     n_fixed[0] = 0
-    # ---- which of the two crash sites does this build have? (fixed, model-free replays)
-    c1, r1 = fixed_probe(ctx, base, "fx1", {"main.gdn": 'import "./nosuch.gdn" as a\nimport "./nosuch.gdn" as b\nprintln("hi")\n'})
-    c2, r2 = fixed_probe(ctx, base, "fx2", {"main.gdn": 'import "./main.gdn"\npublic fun x(): Int { 1 }\nprintln(string_repr(x()))\n'})
-    cfg = (1 if "eval.rs:476" in c1 + r1 else 0, 1 if "eval.rs:646" in c2 + r2 else 0)
-    ctx.cov["implementation_variant"] = {"reimport_unreadable_panics": bool(cfg[0]), "self_import_panics": bool(cfg[1])}
-    if cfg[0]:
-        ctx.fail(K_REIMPORT, "importing an unreadable file twice panics", files={"main.gdn": "import \"./nosuch.gdn\" as a\nimport \"./nosuch.gdn\" as b\n"},
-                 check=c1, run=r1)
-    elif c1.startswith("crash") or r1.startswith("crash"):
-        ctx.fail("C34/loader-crash", "crash on the reimport replay: %s %s" % (c1, r1))
-    if cfg[1]:
-        ctx.fail(K_SELF, "a file importing itself (no `as`) with a public function panics",
-                 files={"main.gdn": "import \"./main.gdn\"\npublic fun x(): Int { 1 }\n"}, check=c2, run=r2)
-    elif c2.startswith("crash") or r2.startswith("crash") or not r2.startswith("ok"):
-        ctx.fail("C34/loader-crash", "self-import replay: %s %s" % (c2, r2))
-
-    # ---- fixed two-file replays of the DESIGN §8 findings (model-free)
+    # ---- fixed, model-free replays (all run in parallel): the two crash sites, the DESIGN §8 findings,
+    # the function rule on two files, the cyclic partial import
     lib = ("public fun pubf(): Int { 1001 }\nfun privf(): Int { 1002 }\nstruct PrivS { a: Int }\n"
            "method privm(this: PrivS): Int { 1003 }\npublic enum PubE { PRed, PGreen }\n")
-    for name, body, key, what, bad in [
+    cyc = {"a.gdn": 'public fun x(): Int { 1001 }\nimport "./b.gdn"\npublic fun y(): Int { 1002 }\n',
+           "b.gdn": 'import "./a.gdn"\npublic fun viax(): Int { x() }\npublic fun viay(): Int { y() }\n'}
+    jobs = {
+        "reimport": {"main.gdn": 'import "./nosuch.gdn" as a\nimport "./nosuch.gdn" as b\nprintln("hi")\n'},
+        "self": {"main.gdn": 'import "./main.gdn"\npublic fun x(): Int { 1 }\nprintln(string_repr(x()))\n'},
+    }
+    finding_cases = [
         ("private type", "println(string_repr(PrivS{ a: 1 }.a))", K_PRIV_TYPE,
          "a private struct of an imported file is usable by the importer", lambda c, r: not is_err(r)),
         ("private method", "println(string_repr(PrivS{ a: 1 }.privm()))", K_PRIV_METH,
@@ -625,46 +719,68 @@ def _run(ctx, rng, base):
         ("public variant", "println(string_repr(PRed))", K_VARIANTS,
          "the variants of a `public enum` are not brought into scope by an unqualified import (nor reachable "
          "through `ns::Variant`)", lambda c, r: is_err(r) or is_err(c)),
-    ]:
-        main_src = 'import "./lib.gdn"\n' + body + "\n"
-        c, r = fixed_probe(ctx, base, "fx3", {"lib.gdn": lib, "main.gdn": main_src})
+    ]
+    for name, body, _, _, _ in finding_cases:
+        jobs[name] = {"lib.gdn": lib, "main.gdn": 'import "./lib.gdn"\n' + body + "\n"}
+    fun_cases = [("println(string_repr(m::pubf()))", False), ("println(string_repr(m::privf()))", True),
+                 ("println(string_repr(m::nosuch()))", True)]
+    for body, _ in fun_cases:
+        jobs[body] = {"lib.gdn": lib, "main.gdn": 'import "./lib.gdn" as m\n' + body + "\n"}
+    cyc_cases = [("viax", "ok:1001"), ("viay", "ok:1002")]
+    for fn_, _ in cyc_cases:
+        jobs["cyc-" + fn_] = dict(cyc, **{"main.gdn": 'import "./a.gdn" as a\nimport "./b.gdn" as b\n'
+                                                    'println(string_repr(b::%s()))\n' % fn_})
+    names = list(jobs)
+    fx = dict(zip(names, common.pmap(lambda i: fixed_probe(ctx, base, "fx%d" % i, jobs[names[i]]), range(len(names)))))
+    par_fixed = min(common.NPROC, len(names))
+
+    c1, r1 = fx["reimport"]
+    c2, r2 = fx["self"]
+    cfg = (1 if "eval.rs:476" in c1 + r1 else 0, 1 if "eval.rs:646" in c2 + r2 else 0)
+    ctx.cov["implementation_variant"] = {"reimport_unreadable_panics": bool(cfg[0]), "self_import_panics": bool(cfg[1])}
+    if cfg[0]:
+        ctx.fail(K_REIMPORT, "importing an unreadable file twice panics", files=jobs["reimport"], check=c1, run=r1)
+    elif c1.startswith("crash") or r1.startswith("crash") or c1 == "timeout" or r1 == "timeout":
+        ctx.fail("C34/loader-crash", "crash on the reimport replay: %s %s" % (c1, r1), files=jobs["reimport"])
+    if cfg[1]:
+        ctx.fail(K_SELF, "a file importing itself (no `as`) with a public function panics", files=jobs["self"],
+                 check=c2, run=r2)
+    elif c2.startswith("crash") or r2.startswith("crash") or not r2.startswith("ok"):
+        ctx.fail("C34/loader-crash", "self-import replay: %s %s" % (c2, r2), files=jobs["self"])
+    for name, body, key, what, bad in finding_cases:
+        c, r = fx[name]
         ctx.case(("fixed", name), True)
         if bad(c, r):
-            ctx.fail(key, what, files={"lib.gdn": lib, "main.gdn": main_src}, check=c, run=r)
-    for body, expect_err in [("println(string_repr(m::pubf()))", False), ("println(string_repr(m::privf()))", True),
-                             ("println(string_repr(m::nosuch()))", True)]:
-        main_src = 'import "./lib.gdn" as m\n' + body + "\n"
-        c, r = fixed_probe(ctx, base, "fx4", {"lib.gdn": lib, "main.gdn": main_src})
+            ctx.fail(key, what, files=jobs[name], check=c, run=r)
+    for body, expect_err in fun_cases:
+        c, r = fx[body]
         ctx.case(("fixed", body), True)
-        if is_err(c) != expect_err or is_err(r) != expect_err or c.startswith("crash") or r.startswith("crash"):
-            ctx.fail("C34/fixed-two-file", "expected error=%s, got check %s run %s" % (expect_err, c, r),
-                     files={"lib.gdn": lib, "main.gdn": main_src})
-
-    cyc = {"a.gdn": 'public fun x(): Int { 1001 }\nimport "./b.gdn"\npublic fun y(): Int { 1002 }\n',
-           "b.gdn": 'import "./a.gdn"\npublic fun viax(): Int { x() }\npublic fun viay(): Int { y() }\n'}
-    for fn_, want in [("viax", "ok:1001"), ("viay", "ok:1002")]:
-        main_src = 'import "./a.gdn" as a\nimport "./b.gdn" as b\nprintln(string_repr(b::%s()))\n' % fn_
-        c, r = fixed_probe(ctx, base, "fx5", dict(cyc, **{"main.gdn": main_src}))
+        if is_err(c) != expect_err or is_err(r) != expect_err or c.startswith("crash") or r.startswith("crash") \
+                or "timeout" in (c, r):
+            ctx.fail("C34/fixed-two-file", "expected error=%s, got check %s run %s" % (expect_err, c, r), files=jobs[body])
+    for fn_, want in cyc_cases:
+        c, r = fx["cyc-" + fn_]
+        files = jobs["cyc-" + fn_]
         ctx.case(("fixed-cycle", fn_), True)
         if c == "timeout" or r == "timeout":
-            ctx.fail("C34/import-loop-timeout", "cyclic project did not finish", files=dict(cyc, **{"main.gdn": main_src}))
+            ctx.fail("C34/import-loop-timeout", "cyclic project did not finish", files=files)
         elif c.startswith("crash") or r.startswith("crash"):
-            ctx.fail("C34/loader-crash", "cyclic project crashed: %s %s" % (c, r), files=dict(cyc, **{"main.gdn": main_src}))
+            ctx.fail("C34/loader-crash", "cyclic project crashed: %s %s" % (c, r), files=files)
         elif r != want:
             ctx.fail(K_CYCLIC_PARTIAL, "in an import cycle an unqualified import of a file that is still being "
-                     "loaded copies only the public functions defined so far", files=dict(cyc, **{"main.gdn": main_src}),
-                     check=c, run=r)
+                     "loaded copies only the public functions defined so far", files=files, check=c, run=r)
 
     # ---- generated projects
     gen = Gen(rng)
     max_files = ctx.scale(4, 6)
-    per_proj = ctx.scale(11, 30)
+    per_proj = ctx.scale(14, 30)
     # quick tier: as many projects as fit in about two minutes at the measured process cost
     # (30 ms on an idle machine, 0.5 s when the sandbox is shared), between 24 and 300
-    per_process = max(0.02, (time.time() - t_fixed) / max(1, 2 * n_fixed[0]))
-    par = max(1, common.NPROC // 2) if per_process < 0.15 else 2     # a loaded machine does not parallelise
-    budget = int(120.0 * par / (per_process * 2 * per_proj))
-    n_proj = int(os.environ.get("C34_PROJECTS", ctx.scale(max(24, min(300, budget)), 1500)))
+    # measured cost of one garden process while `par_fixed` of them run side by side
+    per_process = max(0.02, (time.time() - t_fixed) / 2.0)
+    par = max(1, common.NPROC // 2)
+    budget = int(75.0 * par / (per_process * 7))                      # ≈7 processes per project
+    n_proj = int(os.environ.get("C34_PROJECTS", ctx.scale(max(24, min(300, budget)), 4000)))
     ctx.cov["seconds_per_garden_process"] = round(per_process, 3)
     shapes = ["chain", "diamond", "cycle", "cycle", "self", "multi", "random", "random"]
     projs = []
@@ -673,16 +789,16 @@ def _run(ctx, rng, base):
         nfiles = rng.randint(4 if shape == "diamond" else 2, max_files)
         proj = gen.project(nfiles, shape)
         ps = probes_for(rng, proj, per_proj)
-        reimport, selfimp, _ = panic_classes(proj)
-        if reimport or selfimp:
-            ps = ps[:3]      # every probe of such a project just crashes
+        reimport, selfimp, n_miss = panic_classes(proj)
+        if reimport or selfimp or n_miss:
+            ps = ps[:3]      # every probe of such a project crashes / reports the unreadable file
         projs.append((k, proj, ps))
     ctx.rule = ("project directories of 2-%d files (main.gdn + a/b/c/sub/d/e.gdn); import graphs: chain, diamond, cycle "
                 "(incl. back to main), self-import, the same file imported twice under aliases and unqualified, random "
                 "digraphs; 3-7%% import an unreadable file once/twice; every file has 2-5 definitions (fun over 4 names, "
                 "struct, enum with variants, method on Int or a struct) with random `public`, imports placed before, "
                 "between or after them; non-main files get `via<k>` functions whose body looks a function up in that "
-                "file's own scope. One probe per run: ns::f(), ns::Variant, ns::println, ns::via<k>(), bare f(), bare "
+                "file's own scope (project-unique names). Probes (batched per project, see module doc): ns::f(), ns::Variant, ns::println, ns::via<k>(), bare f(), bare "
                 "Variant, struct literals, method calls; outcome = error kind or the tag of the definition reached. "
                 "Non-trivial = the probe's name is defined somewhere in the project with both outcomes possible "
                 "(not the `nosuch`/`zz`/`S9` negative controls)." % max_files)
@@ -698,7 +814,10 @@ def _run(ctx, rng, base):
     impl = common.pmap(lambda t: run_project(ctx, base, t[0], t[1], t[2]), projs)
     stats = {"ok": 0, "err": 0, "crash_projects": 0, "cyclic_projects": 0, "probes": 0, "missing_projects": 0}
     kinds = {}
-    for (k, proj, probes), m, (res, srcs) in zip(projs, model, impl):
+    for (k, proj, probes), m, (res, srcs, incons) in zip(projs, model, impl):
+        for inc in incons:
+            ctx.broken.append(dict(kind="correspondence", what="batched and single-probe evaluation differ", files=srcs, **inc))
+        stats["single_rechecks"] = stats.get("single_rechecks", 0) + 2
         cyc = any(on_cycle(proj, f) for f in proj["files"])
         stats["cyclic_projects"] += cyc
         sexp = model_line(proj, probes, cfg)
